@@ -46,7 +46,8 @@ extern "C" void h_c03c_fcgi_framing()
     s->response_headers_written_ = !with_headers;
     s->request_id_ = nondet_u16();
     size_t n = nondet_u32();
-    ASSUME(n <= 70000);
+    if (verif_param(1)) ASSUME(n > 65535 && n <= 70000); // two records
+    else ASSUME(n <= 65535 - 8);                          // one record even with the 8-byte header block
     bool completed = nondet_bool();
     booster::aio::const_buffer in;
     if (n > 0) in.add(g_payload, n);          // fake range [g_payload, g_payload+n): addresses only
@@ -130,5 +131,33 @@ extern "C" void h_c03a_advance()
     if (m > 0 && g.first[0].size < sz[k - m]) WITNESS("chunk split");
     if (m == 0) WITNESS("everything consumed");
     if (m == k) WITNESS("no chunk consumed");
+    VERIF_END();
+}
+
+// C03.b: the gather list itself (real buffer_impl::add / get / bytes_count / empty, real std::vector
+// growth): after any sequence of up to 3 add(ptr,size) calls the list holds exactly the non-empty
+// chunks, in call order, and bytes_count() is their sum.
+extern "C" void h_c03b_gather()
+{
+    unsigned k = verif_param(0);
+    booster::aio::const_buffer *b = new booster::aio::const_buffer();
+    size_t sz[4]; char const *pt[4];
+    unsigned kept = 0; size_t total = 0;
+    size_t esz[4]; char const *ept[4];
+    for (unsigned i = 0; i < k; i++) {
+        sz[i] = nondet_u64(); ASSUME(sz[i] <= (1ull << 40));
+        pt[i] = g_src + (size_t(i) << 44);
+        b->add(pt[i], sz[i]);
+        if (sz[i] != 0) { esz[kept] = sz[i]; ept[kept] = pt[i]; kept++; total += sz[i]; }
+    }
+    std::pair<booster::aio::const_buffer::entry const *, size_t> g = b->get();
+    CHECKM(g.second == kept, "number of chunks differs from the number of non-empty add() calls");
+    for (unsigned j = 0; j < kept && j < 4; j++)
+        CHECKM(g.first[j].ptr == ept[j] && g.first[j].size == esz[j], "chunk differs from what was added, or out of order");
+    CHECKM(b->bytes_count() == total && b->empty() == (kept == 0) && b->size() == kept, "bytes_count()/empty()/size() disagree with the chunks added");
+    if (kept == 3) WITNESS("three chunks");
+    if (kept < k) WITNESS("empty chunk skipped");
+    if (kept == 0) WITNESS("empty list");
+    if (kept == 1) WITNESS("single chunk");
     VERIF_END();
 }
